@@ -376,7 +376,74 @@ def run(ctx):
             or (not is_m and isinstance(c.func, ast.Name) and c.func.id == name))]
 
     walkers = [(n, nm, im) for n, nm, im in cands if self_calls(n, nm, im)]
-    if len(walkers) != 1:
+
+    def not_external(fs):
+        return P_.implied(fs, lambda a: a[0] == "cmp" and (
+            (a[3] == "RTM.EXTERNAL" and a[4] is (a[1] == "NotEq")) or (a[3] == "RTM.INTERNAL" and a[4] is (a[1] == "Eq"))) and a[2].endswith(".targetMode"))
+
+    def worklist_walk():
+        """The same traversal written with an explicit stack: `while W: for X in W[-1]: if X not in M: W.append(<targets of X>); break`.
+        Returns (problems, visited map, n pushes) or None when there is no such loop."""
+        from sa.inline import resolve_callee as _rcw
+
+        xx = _expand(prog, xr, depth=3, local_only=True)
+        wal_ = P_.aliases(xx)
+        whiles = [n for n in ast.walk(xx) if isinstance(n, ast.While) and isinstance(n.test, ast.Name)]
+        out, n_push, marks = [], 0, set()
+        for wl in whiles:
+            W = wl.test.id
+            for lp in [n for n in ast.walk(wl) if isinstance(n, ast.For) and isinstance(n.target, ast.Name)]:
+                X = lp.target.id
+                for pth in P_.enum_paths(lp.body):
+                    for i, ev in enumerate(pth.events):
+                        if ev[0] != "stmt":
+                            continue
+                        for c in ast.walk(ev[1]):
+                            if isinstance(c, ast.Call) and isinstance(c.func, ast.Attribute) and c.func.attr in ("append", "extend", "insert") \
+                                    and dotted(c.func.value) == W:
+                                n_push += 1
+                                fs = P_.facts(pth, i, wal_)
+                                before = [e[1] for e in pth.events[:i] if e[0] == "stmt"]
+                                marked = {dotted(t_.value) for st_ in before for x in ast.walk(st_) if isinstance(x, ast.Assign) for t_ in x.targets
+                                          if isinstance(t_, ast.Subscript) and P_.norm(t_.slice, wal_) == X}
+                                marked |= {dotted(x.func.value) for st_ in before for x in ast.walk(st_) if isinstance(x, ast.Call)
+                                           and isinstance(x.func, ast.Attribute) and x.func.attr == "add" and x.args and P_.norm(x.args[0], wal_) == X}
+                                marks |= marked
+                                if not P_.implied(fs, lambda a: a[0] == "in" and a[1] == X and a[3] is False and a[2] in marked):
+                                    out.append("a target is pushed for expansion without having established that it is not yet visited (a set/dict "
+                                               "marked with it on the same path): a reference cycle does not terminate")
+        if not n_push:
+            return None
+        # the targets come from generators that skip External relationships
+        gens = []
+        for c in ast.walk(xx):
+            if isinstance(c, ast.Call):
+                rc_ = _rcw(prog, xr, c, {})
+                if rc_ is not None and hasattr(rc_[0], "node") and any(isinstance(y, ast.Yield) for y in ast.walk(rc_[0].node)):
+                    gens.append(rc_[0])
+        ext_ok = bool(gens)
+        for g_ in gens:
+            gd_ = _desugar(g_.node)
+            gal_ = P_.aliases(gd_)
+            for lp in [n for n in ast.walk(gd_) if isinstance(n, ast.For)]:
+                for pth in P_.enum_paths(lp.body):
+                    for i, ev in enumerate(pth.events):
+                        if ev[0] == "stmt" and any(isinstance(y, ast.Yield) for y in ast.walk(ev[1])):
+                            if not not_external(P_.facts(pth, i, gal_)):
+                                ext_ok = False
+        if not ext_ok:
+            out.append("the walk expands a target without having established that the relationship is not External")
+        return out, marks, n_push
+
+    wl_ = worklist_walk() if len(walkers) != 1 else None
+    if len(walkers) != 1 and wl_ is not None:
+        probs_, marks_, n_push_ = wl_
+        if probs_:
+            ctx.violation("R16.1", "_PackageLoader._xml_rels:walk", "; ".join(sorted(set(probs_))), file=pk.relpath, line=xr.line)
+        else:
+            ctx.ok("R16.1", "_PackageLoader._xml_rels:walk", sample={"walker": "explicit stack", "skips": "external targets and names already visited (cycles terminate)",
+                                                                 "visited": sorted(marks_)})
+    elif len(walkers) != 1:
         ctx.error("_PackageLoader._xml_rels", "the recursive relationship walk is not recognised (%d candidates)" % len(walkers))
     else:
         wn, wname, wm = walkers[0]
